@@ -9,3 +9,11 @@ Theorem C20_build_get : forall fuel ks n, build fuel ks = Some n -> sortedK ks -
   forall k, get n k = assoc k ks.
 Proof. exact build_get. Qed.
 Print Assumptions C20_build_get.
+
+(* a bucket held by several table files: looking a key up file by file (TrieBucket.GetValue) is looking it up in the union
+   of the dictionaries, i.e. in what a compaction merges them into; dictionaries of one bucket never share a key *)
+From LinDBV.C20 Require Bucket.
+Theorem C20_bucket_get_union : forall (ds : list (list ent)) (k : key),
+  NoDup (map fst (concat ds)) -> Bucket.bget ds k = assoc k (Bucket.union ds).
+Proof. exact Bucket.bucket_get_union. Qed.
+Print Assumptions C20_bucket_get_union.
